@@ -231,6 +231,28 @@ func genRawOps(r *common.Rand, g *dag.Graph, n int) []string {
 				groups[w] += strconv.Itoa(any())
 			}
 			ops = append(ops, "C"+strings.Join(groups, "|"))
+		case x < 7 && len(g.Nodes) >= 4:
+			// Index, Remove and Predecessors calls on pairwise distinct nodes from as many goroutines:
+			// the final graph does not depend on the interleaving (the danglings and the concurrent
+			// answers do: not compared)
+			perm := make([]int, len(g.Nodes))
+			for j := range perm {
+				perm[j] = j
+			}
+			common.Shuffle(r, perm)
+			k := 3 + r.Intn(len(perm)-2)
+			var items []string
+			for j, nd := range perm[:k] {
+				switch (j + r.Intn(2)) % 3 {
+				case 0:
+					items = append(items, fmt.Sprintf("i%d", nd))
+				case 1:
+					items = append(items, fmt.Sprintf("r%d", nd))
+				default:
+					items = append(items, fmt.Sprintf("q%d", nd))
+				}
+			}
+			ops = append(ops, "M"+strings.Join(items, "|"))
 		case x < 32:
 			ops = append(ops, fmt.Sprintf("I%d", any()))
 		case x < 48:
@@ -291,10 +313,58 @@ func runRaw(g *dag.Graph, ops []string, origin string) {
 		if len(o) > 1 {
 			arg, _ = strconv.Atoi(o[1:])
 		}
-		if o != "Z" && o[0] != 'C' && (arg < 0 || arg >= len(g.Nodes)) {
+		if o != "Z" && o[0] != 'C' && o[0] != 'M' && (arg < 0 || arg >= len(g.Nodes)) {
 			continue
 		}
 		switch o[0] {
+		case 'M':
+			items := strings.Split(o[1:], "|")
+			errs := make([]error, len(items))
+			var wg sync.WaitGroup
+			start := make(chan struct{})
+			for k, it := range items {
+				i, cerr := strconv.Atoi(it[1:])
+				if cerr != nil || i < 0 || i >= len(g.Nodes) {
+					continue
+				}
+				wg.Add(1)
+				go func(k int, kind byte, i int) {
+					defer wg.Done()
+					<-start
+					switch kind {
+					case 'i':
+						errs[k] = mem.Index(ctx, f, g.Nodes[i].Desc)
+					case 'r':
+						mem.Remove(g.Nodes[i].Desc)
+					case 'q':
+						mem.Predecessors(ctx, g.Nodes[i].Desc)
+					}
+				}(k, it[0], i)
+			}
+			close(start)
+			wg.Wait()
+			for k, it := range items {
+				i, cerr := strconv.Atoi(it[1:])
+				if cerr != nil || i < 0 || i >= len(g.Nodes) {
+					continue
+				}
+				switch it[0] {
+				case 'i':
+					switch {
+					case errs[k] == nil && sok(i):
+						toks = append(toks, "ok")
+						present[i] = true
+					case errors.Is(errs[k], errdef.ErrNotFound) && !sok(i):
+						toks = append(toks, "nf")
+					default:
+						toks = append(toks, "err")
+						fail("index-error", fmt.Sprintf("concurrent Index(%d): %v (fetchable=%v)", i, errs[k], sok(i)))
+					}
+				case 'r':
+					delete(present, i)
+				}
+			}
+			run.Count("raw-concurrent-mixed-block")
 		case 'C':
 			groups := parseGroups(o[1:], len(g.Nodes))
 			res := make([][]error, len(groups))
@@ -472,6 +542,22 @@ func filterModelOps(g *dag.Graph, ops []string) []string {
 	for _, o := range ops {
 		if o == "Z" {
 			out = append(out, o)
+			continue
+		}
+		if o[0] == 'M' {
+			// operations on pairwise distinct nodes commute: the model runs them in the listed order
+			for _, it := range strings.Split(o[1:], "|") {
+				i, err := strconv.Atoi(it[1:])
+				if err != nil || i < 0 || i >= len(g.Nodes) {
+					continue
+				}
+				switch it[0] {
+				case 'i':
+					out = append(out, fmt.Sprintf("I%d", i))
+				case 'r':
+					out = append(out, fmt.Sprintf("D%d", i))
+				}
+			}
 			continue
 		}
 		if o[0] == 'C' {
@@ -839,6 +925,31 @@ func (e *xstore) do(op string) {
 		for _, g := range groups {
 			for _, i := range g {
 				err := errs[i]
+				if e.kind == "file" {
+					// The file store can refuse a Push after having stored the content (restoring a
+					// duplicate under an unwritable name, ...) and can accept one without storing
+					// (IgnoreNoName): what is stored is asked from Exists; the outcome of Push itself
+					// is not judged here (C06/C11/C12), Predecessors against the stored set is.
+					ex, xerr := e.fileSt.Exists(ctx, e.desc(i))
+					switch {
+					case err == nil && ex:
+					case err == nil:
+						run.Count("file-push-ok-not-stored")
+					case errors.Is(err, errdef.ErrAlreadyExists):
+						run.Count("file-push-already-exists")
+					case ex:
+						run.Count("file-push-error-but-stored")
+					default:
+						run.Count("file-push-error-not-stored")
+					}
+					if xerr == nil && ex && !e.stored[i] {
+						e.stored[i] = true
+						e.mops = append(e.mops, fmt.Sprintf("+%d", i), fmt.Sprintf("I%d", i))
+						e.toks = append(e.toks, "ok")
+						e.sops = append(e.sops, fmt.Sprintf("P%d", i))
+					}
+					continue
+				}
 				switch {
 				case err == nil:
 					if e.stored[i] {
@@ -855,6 +966,70 @@ func (e *xstore) do(op string) {
 				}
 			}
 		}
+	case "foreign":
+		// index.json rewritten the way other tools write a layout (and the way oras-go left it
+		// after GC before 34cefcb): only the tagged manifests and the manifests without a stored
+		// parent are listed; nested manifests are reachable through them only.  Followed by a reopen.
+		if e.ociSt == nil {
+			return
+		}
+		var entries []ocispec.Descriptor
+		var names []string
+		for nm := range e.tags {
+			names = append(names, nm)
+		}
+		sort.Strings(names)
+		for _, nm := range names {
+			d := e.u.g.Nodes[e.tags[nm]].Desc
+			d.Annotations = map[string]string{ocispec.AnnotationRefName: nm}
+			entries = append(entries, d)
+		}
+		var roots []string
+		for _, n := range e.u.g.Nodes {
+			if !n.IsManifest() || !e.stored[n.ID] || e.hasName(n.ID) {
+				continue
+			}
+			hasParent := false
+			for _, p := range e.u.expectedPreds(e.stored, n.ID) {
+				if e.u.g.Nodes[p].IsManifest() {
+					hasParent = true
+				}
+			}
+			if !hasParent {
+				entries = append(entries, n.Desc)
+				roots = append(roots, strconv.Itoa(n.ID))
+			}
+		}
+		ix := ocispec.Index{MediaType: ocispec.MediaTypeImageIndex, Manifests: entries}
+		ix.SchemaVersion = 2
+		if len(entries) == 0 {
+			ix.Manifests = []ocispec.Descriptor{}
+		}
+		data, _ := json.Marshal(ix)
+		if err := os.WriteFile(filepath.Join(e.root, "index.json"), data, 0o644); err != nil {
+			panic(err)
+		}
+		e.sops = append(e.sops, "F"+strings.Join(roots, "."))
+		run.Count("foreign-roots-only-index")
+		return
+	case "opt":
+		if e.fileSt != nil {
+			switch arg {
+			case "forcecas":
+				e.fileSt.ForceCAS = true
+			case "ignorenoname":
+				e.fileSt.IgnoreNoName = true
+			case "nooverwrite":
+				e.fileSt.DisableOverwrite = true
+			}
+		}
+		return
+	case "pre":
+		// a file that exists in the working directory before the store writes it
+		if e.fileSt != nil && !strings.ContainsAny(arg, "/\\") {
+			os.WriteFile(filepath.Join(e.root, arg), []byte("pre-existing"), 0o644)
+		}
+		return
 	case "cmix":
 		// one goroutine per item, started together: <id> = Push, t<id>=<name> = Tag, u=<name> = Untag,
 		// x<id> = Delete.  Every name is touched by one item only and a deleted node is neither
@@ -1031,7 +1206,13 @@ func (e *xstore) do(op string) {
 				// GC refusing to run (e.g. index.json still naming blobs an earlier GC swept: F2,
 				// properties C08/C09) is not a statement about Predecessors: gcIndex returns
 				// before replacing the graph.  Not judged; the sweep below still checks the state.
-				run.Count("gc-error-not-judged")
+				if f1Present {
+					run.Count("gc-error-not-judged")
+				} else {
+					// with the known GC defects repaired a GC that refuses to run on a layout this
+					// store wrote itself makes "after GC" unreachable: reported
+					e.fail("gc-error", fmt.Sprintf("GC: %v", err))
+				}
 				e.script[len(e.script)-1] = "gc"
 				e.sweep(e.st, e.st, "after failed gc", &e.mops, &e.toks)
 				e.sops = append(e.sops, "S")
@@ -1040,8 +1221,14 @@ func (e *xstore) do(op string) {
 			}
 		case <-time.After(30 * time.Second):
 			// a hang is C09's business (F1): not judged here; stop using this store
-			run.Count("gc-hang-not-judged")
 			e.gcHung = true
+			if f1Present {
+				run.Count("gc-hang-not-judged")
+			} else if os.Getenv("C07_NO_CONFIRM") == "" && confirmHang(e.replay()) {
+				e.fail("gc-hang", "GC did not return within 30 s, and again not within 120 s in a fresh process replaying the same history")
+			} else {
+				run.Count("gc-hang-not-reproduced")
+			}
 			return
 		}
 		e.sawGC = true
@@ -1331,18 +1518,58 @@ func genStore(r *common.Rand, kind string, origin string) {
 		}
 		x := r.Intn(100)
 		if kind != "oci" {
-			if len(absent) > 0 {
+			if len(storedIDs) > 0 && x < 30 {
+				e.do(fmt.Sprintf("push:%d", common.Pick(r, storedIDs))) // refused: already exists
+			} else if len(absent) > 0 {
 				e.do(fmt.Sprintf("push:%d", common.Pick(r, absent)))
 			}
 			continue
 		}
 		switch {
-		case x < 30 && len(storedIDs) > 0:
+		case x < 27 && len(storedIDs) > 0:
 			e.do(fmt.Sprintf("delete:%d", common.Pick(r, storedIDs)))
+		case x < 30:
+			// Delete of content that is not stored (deleted before, never pushed, foreign layer)
+			run.Count("delete-absent")
+			var cand []int
+			for _, n := range g.Nodes {
+				if !e.stored[n.ID] {
+					cand = append(cand, n.ID)
+				}
+			}
+			if len(cand) > 0 {
+				e.do(fmt.Sprintf("delete:%d", common.Pick(r, cand)))
+			}
 		case x < 45 && len(absent) > 0:
+			if len(absent) >= 2 && r.Chance(1, 3) {
+				// a concurrent block in the middle of a history (after Delete / GC / reopen)
+				run.Count("phase2-concurrent-push")
+				common.Shuffle(r, absent)
+				k := 2 + r.Intn(len(absent)-1)
+				var gs []string
+				for _, i := range absent[:k] {
+					gs = append(gs, strconv.Itoa(i))
+				}
+				e.do("cpush:" + strings.Join(gs, "|"))
+				break
+			}
 			e.do(fmt.Sprintf("push:%d", common.Pick(r, absent)))
 		case x < 57 && len(storedManifests) > 0:
 			tagN++
+			if r.Chance(1, 5) {
+				// Tag accepts any stored content: a layer or config becomes a root of the index
+				var blobs []int
+				for _, i := range storedIDs {
+					if !g.Nodes[i].IsManifest() {
+						blobs = append(blobs, i)
+					}
+				}
+				if len(blobs) > 0 {
+					run.Count("tag-non-manifest")
+					e.do(fmt.Sprintf("tag:%d:b%d", common.Pick(r, blobs), tagN%2))
+					break
+				}
+			}
 			e.do(fmt.Sprintf("tag:%d:t%d", common.Pick(r, storedManifests), tagN%3))
 		case x < 60 && len(e.tags) > 0:
 			var names []string
@@ -1387,6 +1614,9 @@ func genStore(r *common.Rand, kind string, origin string) {
 					e.do("reopen:" + common.Pick(r, []string{"dir", "fs", "tar"}))
 				}
 			}
+		case x < 84:
+			e.do("foreign")
+			e.do("reopen:" + common.Pick(r, []string{"dir", "dir", "dir", "fs", "tar"}))
 		default:
 			e.do("reopen:" + common.Pick(r, []string{"dir", "dir", "fs", "tar"}))
 		}
@@ -1416,6 +1646,40 @@ func replayStore(rep storeReplay) {
 		e.do(op)
 	}
 	e.finish("store-" + rep.Store + "-replay")
+}
+
+// confirmHang replays a history in a fresh child process (a slow machine must not be
+// reported as a hanging GC): true iff the child does not finish within 120 s.
+func confirmHang(rep storeReplay) bool {
+	self, err := os.Executable()
+	if err != nil {
+		return false
+	}
+	dir, err := os.MkdirTemp("", "c07hang")
+	if err != nil {
+		return false
+	}
+	defer os.RemoveAll(dir)
+	js, _ := json.Marshal(map[string]any{"cases": []any{rep}})
+	rp := filepath.Join(dir, "replay.json")
+	if os.WriteFile(rp, js, 0o644) != nil {
+		return false
+	}
+	cmd := exec_Command(self, "-seed", "1", "-tier", "quick", "-dir", filepath.Join(dir, "out"), "-replay", rp)
+	cmd.Env = append(os.Environ(), "C07_NO_CONFIRM=1")
+	if cmd.Start() != nil {
+		return false
+	}
+	done := make(chan error, 1)
+	go func() { done <- cmd.Wait() }()
+	select {
+	case <-done:
+		return false
+	case <-time.After(120 * time.Second):
+		cmd.Process.Kill()
+		<-done
+		return true
+	}
 }
 
 // ------------------------------------------------------------------ F1 probe
@@ -1499,7 +1763,266 @@ func caseFromSeed(part string, seed uint64) {
 		genBurst(r, origin)
 	case "chain":
 		genChain(r, origin)
+	case "ftitle":
+		genFileTitles(r, origin)
+	case "links":
+		genLinks(r, origin)
 	}
+}
+
+// genLinks: content.Successors itself.  A document of a random media type carrying ALL of
+// subject / config / layers / manifests / blobs (also the members its media type does not
+// read: an index with layers, a Docker manifest with a subject, a manifest listed as a
+// blob, a blob listed as a manifest, the same descriptor twice) is handed to the real
+// function; the result is compared with the model (Model/Links.v) and with the clause of the
+// property text evaluated by the harness.
+func genLinks(r *common.Rand, origin string) {
+	salt := r.U64()
+	mts := []string{ocispec.MediaTypeImageLayer, ocispec.MediaTypeImageConfig, ocispec.MediaTypeImageManifest,
+		ocispec.MediaTypeImageIndex, dag.MTArtifactManifest, dag.MTDockerManifest, "application/octet-stream"}
+	var univ []ocispec.Descriptor
+	ids := map[key]int{}
+	for i := 0; i < 4+r.Intn(4); i++ {
+		d := content.NewDescriptorFromBytes(common.Pick(r, mts), []byte(fmt.Sprintf("u-%d-%x", i, salt)))
+		ids[keyOf(d)] = i
+		if r.Chance(1, 3) {
+			d.Annotations = map[string]string{"k": "v"}
+		}
+		if r.Chance(1, 4) {
+			d.Platform = &ocispec.Platform{Architecture: "amd64", OS: "linux"}
+		}
+		univ = append(univ, d)
+	}
+	pickList := func() []int {
+		var out []int
+		for i := 0; i < r.Intn(4); i++ {
+			x := r.Intn(len(univ))
+			out = append(out, x)
+			if r.Chance(1, 5) {
+				out = append(out, x)
+			}
+		}
+		return out
+	}
+	kinds := []struct{ name, mt string }{
+		{"dockermanifest", dag.MTDockerManifest}, {"imagemanifest", ocispec.MediaTypeImageManifest},
+		{"dockerlist", dag.MTDockerManifestList}, {"imageindex", ocispec.MediaTypeImageIndex},
+		{"artifact", dag.MTArtifactManifest}, {"other", common.Pick(r, []string{ocispec.MediaTypeImageLayer, ocispec.MediaTypeImageConfig, "application/json", ""})},
+	}
+	k := common.Pick(r, kinds)
+	subject := -1
+	if r.Bool() {
+		subject = r.Intn(len(univ))
+	}
+	cfg := r.Intn(len(univ))
+	layers, mans, blobs := pickList(), pickList(), pickList()
+	descs := func(xs []int) []ocispec.Descriptor {
+		out := []ocispec.Descriptor{}
+		for _, x := range xs {
+			out = append(out, univ[x])
+		}
+		return out
+	}
+	doc := map[string]any{"schemaVersion": 2, "mediaType": k.mt, "config": univ[cfg],
+		"layers": descs(layers), "manifests": descs(mans), "blobs": descs(blobs), "artifactType": "application/vnd.verif"}
+	if subject >= 0 {
+		doc["subject"] = univ[subject]
+	}
+	body, _ := json.Marshal(doc)
+	dd := content.NewDescriptorFromBytes(k.mt, body)
+	fetched := false
+	f := content.FetcherFunc(func(_ context.Context, d ocispec.Descriptor) (io.ReadCloser, error) {
+		fetched = true
+		if d.Digest != dd.Digest {
+			return nil, errdef.ErrNotFound
+		}
+		return io.NopCloser(bytes.NewReader(body)), nil
+	})
+	got, err := content.Successors(ctx, f, dd)
+	id := run.NewID()
+	var toks []string
+	for _, d := range got {
+		if i, ok := ids[keyOf(d)]; ok {
+			toks = append(toks, strconv.Itoa(i))
+		} else {
+			toks = append(toks, "?")
+		}
+	}
+	// the property's clause, evaluated here
+	var want []string
+	app := func(xs ...int) {
+		for _, x := range xs {
+			want = append(want, strconv.Itoa(x))
+		}
+	}
+	sub := func() {
+		if subject >= 0 {
+			app(subject)
+		}
+	}
+	switch k.name {
+	case "dockermanifest":
+		app(cfg)
+		app(layers...)
+	case "imagemanifest":
+		sub()
+		app(cfg)
+		app(layers...)
+	case "dockerlist":
+		app(mans...)
+	case "imageindex":
+		sub()
+		app(mans...)
+	case "artifact":
+		sub()
+		app(blobs...)
+	}
+	obs := "s:" + strings.Join(toks, ",")
+	if err != nil {
+		obs = "err"
+	}
+	rep := map[string]any{"kind": "seed", "part": "links", "seed": strings.TrimPrefix(origin, "links-seed-")}
+	if err != nil || strings.Join(toks, ",") != strings.Join(want, ",") {
+		run.OracleFail(id, "successors-links", fmt.Sprintf("content.Successors of a %s document = [%s] (err %v), the referenced subject/config/layers/manifests/blobs are [%s]",
+			k.name, strings.Join(toks, ","), err, strings.Join(want, ",")), rep)
+	}
+	if k.name == "other" && fetched {
+		run.OracleFail(id, "successors-fetch-non-manifest", "content.Successors fetched a non-manifest", rep)
+	}
+	ls := func(xs []int) string {
+		if len(xs) == 0 {
+			return "-"
+		}
+		var p []string
+		for _, x := range xs {
+			p = append(p, strconv.Itoa(x))
+		}
+		return strings.Join(p, ",")
+	}
+	ss := "-"
+	if subject >= 0 {
+		ss = strconv.Itoa(subject)
+	}
+	run.Case(id, fmt.Sprintf("L %s %s %d %s %s %s %s", k.name, ss, cfg, ls(layers), ls(mans), ls(blobs), origin), obs)
+	run.Count("links-" + k.name)
+	if len(want) > 0 {
+		run.Nontrivial("links " + k.name + " " + ss + " " + strings.Join(want, ","))
+	}
+}
+
+// genFileTitles: the file store with manifests whose successor descriptors carry titles:
+// the blob's own name, a second name for the same content (restoreDuplicates writes it), a
+// name that cannot be written (path traversal, DisableOverwrite + existing file), with
+// ForceCAS / IgnoreNoName / DisableOverwrite, any push order and retries.
+func genFileTitles(r *common.Rand, origin string) {
+	var enc []dag.Encoded
+	add := func(kind, mt string, b []byte, succ []int) int {
+		enc = append(enc, dag.Encoded{Kind: kind, MediaType: mt, Bytes: b, Succ: succ, Subject: -1, TwinOf: -1})
+		return len(enc) - 1
+	}
+	descOf := func(i int) ocispec.Descriptor {
+		return content.NewDescriptorFromBytes(enc[i].MediaType, enc[i].Bytes)
+	}
+	salt := r.U64()
+	names := map[int]string{}
+	cfg := add(dag.KConfig, ocispec.MediaTypeImageConfig, []byte(fmt.Sprintf(`{"verif":"%x"}`, salt)), nil)
+	if r.Bool() {
+		names[cfg] = "config.json"
+	}
+	var layers []int
+	for i := 0; i < 1+r.Intn(3); i++ {
+		l := add(dag.KBlob, ocispec.MediaTypeImageLayer, []byte(fmt.Sprintf("layer-%d-%x", i, salt)), nil)
+		layers = append(layers, l)
+		if r.Chance(2, 3) {
+			names[l] = fmt.Sprintf("f%d.bin", l)
+		}
+	}
+	nooverwrite := r.Chance(1, 4)
+	titled := func(i int, mi, k int, class *string) ocispec.Descriptor {
+		d := descOf(i)
+		switch x := r.Intn(12); {
+		case x < 3 && names[i] != "":
+			d.Annotations = map[string]string{ocispec.AnnotationTitle: names[i]}
+		case x < 7:
+			d.Annotations = map[string]string{ocispec.AnnotationTitle: fmt.Sprintf("dup-%d-%d-%d.bin", mi, k, i)}
+			*class = "alt"
+		case x < 8:
+			d.Annotations = map[string]string{ocispec.AnnotationTitle: fmt.Sprintf("../escape-%d-%d.txt", mi, k)}
+			*class = "bad"
+		case x < 9 && nooverwrite:
+			d.Annotations = map[string]string{ocispec.AnnotationTitle: "pre.txt"}
+			*class = "pre"
+		}
+		return d
+	}
+	var manifests []int
+	for mi := 0; mi < 1+r.Intn(4); mi++ {
+		class := "plain"
+		m := ocispec.Manifest{MediaType: ocispec.MediaTypeImageManifest, Layers: []ocispec.Descriptor{},
+			Annotations: map[string]string{"verif.id": fmt.Sprintf("%d-%x", mi, salt)}}
+		m.SchemaVersion = 2
+		m.Config = titled(cfg, mi, 0, &class)
+		succ := []int{cfg}
+		for k, l := range layers {
+			if r.Chance(2, 3) {
+				m.Layers = append(m.Layers, titled(l, mi, k+1, &class))
+				succ = append(succ, l)
+			}
+		}
+		b, _ := json.Marshal(m)
+		id := add(dag.KImage, ocispec.MediaTypeImageManifest, b, succ)
+		manifests = append(manifests, id)
+		if r.Chance(1, 4) {
+			names[id] = fmt.Sprintf("m%d.json", id)
+		}
+		run.Count("ftitle-manifest-" + class)
+	}
+	g := dag.Decode(enc)
+	e := &xstore{u: newUniverse(g), kind: "file", id: run.NewID(), origin: origin}
+	if err := e.open(); err != nil {
+		panic(err)
+	}
+	defer e.close()
+	for i, nm := range names {
+		e.names[i] = nm
+	}
+	var ids []int
+	for i := range enc {
+		ids = append(ids, i)
+		if nm, ok := names[i]; ok {
+			e.script = append(e.script, fmt.Sprintf("name:%d:%s", i, nm))
+		}
+	}
+	if nooverwrite {
+		e.do("opt:nooverwrite")
+		e.do("pre:pre.txt")
+	}
+	if r.Chance(1, 6) {
+		e.do("opt:forcecas")
+	}
+	if r.Chance(1, 6) {
+		e.do("opt:ignorenoname")
+	}
+	switch r.Intn(3) {
+	case 1:
+		for i, j := 0, len(ids)-1; i < j; i, j = i+1, j-1 {
+			ids[i], ids[j] = ids[j], ids[i]
+		}
+	case 2:
+		common.Shuffle(r, ids)
+	}
+	for _, i := range ids {
+		e.do(fmt.Sprintf("push:%d", i))
+	}
+	// retries of everything (already exists / now restorable)
+	common.Shuffle(r, ids)
+	for _, i := range ids {
+		if r.Bool() {
+			e.do(fmt.Sprintf("push:%d", i))
+		}
+	}
+	run.Count("ftitle")
+	e.finish(origin)
 }
 
 // genChain: nested manifests under one tagged root, then GC, reopen, Delete of the root
@@ -1561,9 +2084,15 @@ func genChain(r *common.Rand, origin string) {
 	}
 	e.do(fmt.Sprintf("tag:%d:root", top))
 	reopen := func() { e.do("reopen:" + common.Pick(r, []string{"dir", "dir", "fs", "tar"})) }
-	e.do("gc")
-	if r.Chance(3, 4) {
+	if r.Chance(1, 3) {
+		// the same layout as another tool would have written it
+		e.do("foreign")
 		e.do("reopen:dir")
+	} else {
+		e.do("gc")
+		if r.Chance(3, 4) {
+			e.do("reopen:dir")
+		}
 	}
 	// delete the parents from the top, sometimes reopening in between
 	for k := len(tower) - 1; k >= 0 && !e.failed; k-- {
@@ -1786,11 +2315,58 @@ func main() {
 	for i := 0; i < run.Scale(40, 1500); i++ {
 		caseFromSeed("chain", run.Rand.U64())
 	}
+	for i := 0; i < run.Scale(120, 4000); i++ {
+		caseFromSeed("ftitle", run.Rand.U64())
+	}
+	for i := 0; i < run.Scale(600, 20000); i++ {
+		caseFromSeed("links", run.Rand.U64())
+	}
 	kinds := []string{"oci", "oci", "oci", "oci", "memory", "file"}
 	for i := 0; i < nStore; i++ {
 		caseFromSeed(kinds[i%len(kinds)], run.Rand.U64())
 	}
+	short := coverageFloors()
+	run.Extra["coverage_floor_failures"] = short
 	run.Finish()
+	if len(short) > 0 {
+		// a stream that silently stopped producing cases must not look like a pass
+		fmt.Fprintln(os.Stderr, "coverage floors not met: "+strings.Join(short, "; "))
+		os.Exit(3)
+	}
+}
+
+// coverageFloors: minimum counts per stream / history feature (quick-tier values; the
+// thorough tier produces far more).  Returns the unmet ones.
+func coverageFloors() []string {
+	floors := map[string]int{
+		"raw": 1000, "raw-concurrent-index-block": 300, "raw-concurrent-mixed-block": 300, "perm-raw": 10, "perm-memory-store": 10,
+		"burst-push": 50, "burst-push-tag-untag": 20, "chain": 30, "ftitle": 100,
+		"file-push-error-but-stored": 10, "ftitle-manifest-alt": 30, "ftitle-manifest-bad": 10,
+		"store-oci": 200, "store-memory": 40, "store-file": 40,
+		"history-with-gc": 40, "history-with-delete": 60, "history-with-reopen": 60,
+		"history-with-autogc-cascade": 5, "reopen-dir": 40, "reopen-fs": 15, "reopen-tar": 15,
+		"foreign-roots-only-index": 10, "push-concurrent": 40, "order-parents-first": 40,
+		"order-children-first": 40, "order-shuffled": 40, "query-absent-node-with-preds": 500,
+		"tag-non-manifest": 5, "delete-absent": 5, "phase2-concurrent-push": 10,
+		"links-dockermanifest": 40, "links-imagemanifest": 40, "links-dockerlist": 40, "links-imageindex": 40,
+		"links-artifact": 40, "links-other": 40,
+	}
+	var keys []string
+	for k := range floors {
+		keys = append(keys, k)
+	}
+	sort.Strings(keys)
+	var short []string
+	for _, k := range keys {
+		if run.Dist[k] < floors[k] {
+			short = append(short, fmt.Sprintf("%s=%d<%d", k, run.Dist[k], floors[k]))
+		}
+	}
+	// GC outcomes that were not judged must stay a small minority
+	if nj := run.Dist["gc-error-not-judged"] + run.Dist["gc-hang-not-judged"] + run.Dist["gc-hang-not-reproduced"] + run.Dist["gc-skipped-unsafe-shape"]; nj*2 > run.Dist["history-with-gc"] {
+		short = append(short, fmt.Sprintf("gc-not-judged=%d vs history-with-gc=%d", nj, run.Dist["history-with-gc"]))
+	}
+	return short
 }
 
 func replay(path string) {
